@@ -1704,3 +1704,13 @@ func init() {
 	extend("C27", "R27f (added after a seeded change was missed): VerifySignature cannot accept — not even for an empty list of transactions to verify — before the block-level signature has been verified (the block hash does not cover that signature).", blockSig("R27f"))
 	extend("C28", "R28e (same rule as R27f).", blockSig("R28e"))
 }
+
+func init() {
+	extend("C04", "R04g (same rule as C01 R01c; added because a seeded change against this property was only seen by C01's check): a pending tree never shares memory with the request that built it — Tree.Set hands copies of the caller's key and value to the node constructors, so reusing a request buffer for a competing update cannot change what a later Commit writes.",
+		rule("R04g", "a pending tree does not alias the request's buffers", 2, func(r *Run) {
+			cp := core.CallAtom([]string{mdb + "copyBytes"})
+			core.CallArgs{Fn: mdbT + "Set", Callee: []string{mdb + "NewNode"}, What: "the first leaf stores copies of key and value", Args: map[int]core.ExprPred{0: cp, 1: cp}, Min: 1}.Check(r)
+			core.CallArgs{Fn: mdbT + "Set", Callee: []string{mdbN + "set"}, What: "inserted key and value are copies", Args: map[int]core.ExprPred{1: cp, 2: cp}, Min: 1}.Check(r)
+		}),
+	)
+}
